@@ -15,6 +15,8 @@ R-C11.4  context managers that set process-wide state restore it in a `finally`
          (reviewed exceptions listed with their reason).
 R-C11.5  registrations into DEF_STORE are not conditional on what the store (or an engine cache)
          already holds (c11_store_guards.py, below).
+R-C11.6  generated names (`%tmp<i>` from a session-wide counter) keep their creation order wherever names are ordered:
+         `sort_vars` interpreted on pairs of temporaries below and across a power of ten (c11_tmporder.py).
 Not decided: that two runs produce equal HUGRs (needs running the compiler).
 """
 
@@ -62,7 +64,6 @@ CACHE_ALLOWED = {
 }
 RESTORE_EXCEPTIONS = {
     "guppylang_internals.error.exception_hook": "deliberate: when the body raises, the custom excepthook must still be installed when the uncaught error reaches sys.excepthook (that is how the pretty banner is printed); it affects how later uncaught exceptions print, not what check/compile produce",
-    "guppylang_internals.tracing.state.set_tracing_state": "a stale tracing state after a failed trace is only consulted when a Guppy definition is called from plain Python; every comptime compile installs its own state before tracing, so later check/compile outcomes do not read it (observation recorded as a note)",
 }
 
 
@@ -74,6 +75,8 @@ def decoration_time(f: FuncInfo) -> bool:
 
 def run(ctx: Ctx) -> None:
     idx = ctx.idx
+    from . import c11_tmporder
+    c11_tmporder.run(ctx)
     funcs = list(idx.iter_funcs(PKGS))
     ctx.floor("R-C11.1", "functions scanned", len(funcs), 1200)
 
